@@ -330,6 +330,157 @@ theorem crossEntropy_multiclass_gradient_correct (c j : ℕ) (p : List ℝ) (hle
     · rename_i e; rw [hg]; simp
   rw [hgrad]; exact h3
 
+/-- EpsilonHingeLoss: away from the kinks `|p_j − l_j| = ε` the returned gradient entry
+(`±1` outside the ε-tube, `0` inside) is the partial derivative of `Σ_j max(0, |l_j − p_j| − ε)` -/
+theorem epsHinge_gradient_correct (eps : ℝ) (heps : 0 ≤ eps) (l p : List ℝ) (j : ℕ)
+    (hl : j < l.length) (hp : j < p.length) (hk : |p[j] - l[j]| ≠ eps) :
+    HasDerivAt (fun t => epsHingeEval eps [l] [p.set j t])
+      (if eps < |p[j] - l[j]| then (if l[j] < p[j] then 1 else -1) else 0) p[j] := by
+  -- the value is a separable sum
+  have hval : ∀ q : List ℝ, epsHingeEval eps [l] [q] = (List.zipWith (fun a b => max 0 (|a - b| - eps)) l q).sum := by
+    intro q
+    unfold epsHingeEval zipSub
+    simp only [List.zipWith_cons_cons, List.zipWith_nil_right, List.flatten_cons, List.flatten_nil, List.append_nil]
+    rw [sumL_eq_sum_real, List.map_zipWith]
+    congr 1
+    simp [smax_zero_real, sabs_real]
+  simp only [hval]
+  apply hasDerivAt_zipWith_sum_set (fun a b => max 0 (|a - b| - eps)) j l p hl hp
+  -- one coordinate
+  have hcont : Continuous fun t : ℝ => |l[j] - t| - eps := by fun_prop
+  rcases lt_or_gt_of_ne hk with hin | hout
+  · -- inside the tube: constantly 0 near p_j
+    have hnot : ¬ eps < |p[j] - l[j]| := not_lt.2 (le_of_lt hin)
+    simp only [hnot, ↓reduceIte]
+    have hneg : |l[j] - p[j]| - eps < 0 := by rw [abs_sub_comm]; linarith
+    have hev : (fun t : ℝ => max 0 (|l[j] - t| - eps)) =ᶠ[nhds p[j]] fun _ => (0 : ℝ) := by
+      filter_upwards [(hcont.continuousAt (x := p[j])).eventually (gt_mem_nhds hneg)] with t ht
+      exact max_eq_left (le_of_lt ht)
+    exact (hasDerivAt_const _ (0 : ℝ)).congr_of_eventuallyEq hev
+  · simp only [hout, ↓reduceIte]
+    have hpos : 0 < |l[j] - p[j]| - eps := by rw [abs_sub_comm]; linarith
+    have hne : p[j] - l[j] ≠ 0 := by
+      intro e; rw [e, abs_zero] at hout; linarith
+    by_cases hlt : l[j] < p[j]
+    · simp only [hlt, ↓reduceIte]
+      -- near p_j: l - t < 0, so |l - t| - eps = t - l - eps
+      have hev : (fun t : ℝ => max 0 (|l[j] - t| - eps)) =ᶠ[nhds p[j]] fun t => t - l[j] - eps := by
+        have h1 := (hcont.continuousAt (x := p[j])).eventually (lt_mem_nhds hpos)
+        have h2 : ∀ᶠ t in nhds p[j], l[j] < t := lt_mem_nhds hlt
+        filter_upwards [h1, h2] with t ht1 ht2
+        rw [max_eq_right (le_of_lt ht1), abs_of_neg (by linarith)]; ring
+      have hd : HasDerivAt (fun t : ℝ => t - l[j] - eps) 1 p[j] := by
+        simpa using ((hasDerivAt_id' p[j]).sub_const l[j]).sub_const eps
+      exact hd.congr_of_eventuallyEq hev
+    · simp only [hlt, ↓reduceIte]
+      have hgt : p[j] < l[j] := by
+        rcases lt_trichotomy p[j] l[j] with h | h | h
+        · exact h
+        · exact absurd (by rw [h]; ring) hne
+        · exact absurd h hlt
+      have hev : (fun t : ℝ => max 0 (|l[j] - t| - eps)) =ᶠ[nhds p[j]] fun t => l[j] - t - eps := by
+        have h1 := (hcont.continuousAt (x := p[j])).eventually (lt_mem_nhds hpos)
+        have h2 : ∀ᶠ t in nhds p[j], t < l[j] := gt_mem_nhds hgt
+        filter_upwards [h1, h2] with t ht1 ht2
+        rw [max_eq_right (le_of_lt ht1), abs_of_pos (by linarith)]
+      have hd : HasDerivAt (fun t : ℝ => l[j] - t - eps) (-1) p[j] := by
+        simpa using ((hasDerivAt_id' p[j]).const_sub l[j]).sub_const eps
+      exact hd.congr_of_eventuallyEq hev
+
+/-- … and that is the entry the model's derivative call returns -/
+theorem epsHinge_gradient_entry (eps : ℝ) (l p : List ℝ) (j : ℕ) (hl : j < l.length) (hp : j < p.length) :
+    ((epsHingeEvalDerivative eps [l] [p]).2.getD 0 []).getD j 0 =
+      (if 0 < max 0 (|p[j] - l[j]| - eps) then (if l[j] < p[j] then 1 else -1) else 0) := by
+  simp only [epsHingeEvalDerivative, List.zipWith_cons_cons, List.zipWith_nil_right, List.map_cons, List.map_nil,
+    List.getD_cons_zero]
+  rw [List.getD_eq_getElem?_getD, List.getElem?_map, List.getElem?_zipWith]
+  simp [List.getElem?_eq_getElem hl, List.getElem?_eq_getElem hp, smax_zero_real, sabs_real]
+
+theorem normSqr_zipSub_real (l q : List ℝ) :
+    normSqr (zipSub q l) = (List.zipWith (fun a b => (b - a) ^ 2) l q).sum := by
+  unfold normSqr zipSub
+  rw [sumL_eq_sum_real, List.map_zipWith]
+  congr 1
+  induction q generalizing l with
+  | nil => simp
+  | cons b q ih =>
+    cases l with
+    | nil => simp
+    | cons a l =>
+      rw [List.zipWith_cons_cons, List.zipWith_cons_cons, ih l]
+      simp [sqr, pow_two]
+
+/-- HuberLoss: inside the quadratic zone (`‖p−l‖² < δ²`) the gradient entry is `p_j − l_j`, outside
+(`‖p−l‖² > δ²`) it is `δ·(p_j − l_j)/‖p−l‖`; both are the partial derivatives of the value. -/
+theorem huber_gradient_correct (delta : ℝ) (l p : List ℝ) (j : ℕ) (hl : j < l.length) (hp : j < p.length)
+    (hk : normSqr (zipSub p l) ≠ sqr delta) :
+    HasDerivAt (fun t => huberRow Real.sqrt delta l (p.set j t))
+      (if normSqr (zipSub p l) ≤ sqr delta then p[j] - l[j]
+       else delta / Real.sqrt (normSqr (zipSub p l)) * (p[j] - l[j])) p[j] := by
+  -- squared distance as a function of the j-th coordinate
+  have hN : HasDerivAt (fun t => normSqr (zipSub (p.set j t) l)) (2 * (p[j] - l[j])) p[j] := by
+    have hg : HasDerivAt (fun t : ℝ => (t - l[j]) ^ 2) (2 * (p[j] - l[j]) ^ (2 - 1) * 1) p[j] :=
+      ((hasDerivAt_id' p[j]).sub_const l[j]).pow 2
+    have := hasDerivAt_zipWith_sum_set (fun a b => (b - a) ^ 2) j l p hl hp _ hg
+    have e : 2 * (p[j] - l[j]) ^ (2 - 1) * 1 = 2 * (p[j] - l[j]) := by norm_num
+    rw [e] at this
+    refine this.congr_of_eventuallyEq (Filter.Eventually.of_forall fun t => ?_)
+    exact normSqr_zipSub_real l (p.set j t)
+  have hset : p.set j p[j] = p := by simp
+  have hcont : ContinuousAt (fun t => normSqr (zipSub (p.set j t) l)) p[j] := hN.continuousAt
+  have hat : normSqr (zipSub (p.set j p[j]) l) = normSqr (zipSub p l) := by rw [hset]
+  rcases lt_or_gt_of_ne hk with hin | hout
+  · have hle : normSqr (zipSub p l) ≤ sqr delta := le_of_lt hin
+    simp only [hle, ↓reduceIte]
+    have hev : (fun t => huberRow Real.sqrt delta l (p.set j t))
+        =ᶠ[nhds p[j]] fun t => (1 / 2 : ℝ) * normSqr (zipSub (p.set j t) l) := by
+      have h0 : (fun t => normSqr (zipSub (p.set j t) l)) p[j] < sqr delta := by
+        show normSqr (zipSub (p.set j p[j]) l) < sqr delta
+        rw [hat]; exact hin
+      have := hcont.eventually (gt_mem_nhds h0)
+      filter_upwards [this] with t ht
+      unfold huberRow
+      simp only [le_of_lt ht, ↓reduceIte, half_real]
+    have hd := hN.const_mul (1 / 2 : ℝ)
+    have e : (1 / 2 : ℝ) * (2 * (p[j] - l[j])) = p[j] - l[j] := by ring
+    rw [e] at hd
+    exact hd.congr_of_eventuallyEq hev
+  · have hnle : ¬ normSqr (zipSub p l) ≤ sqr delta := not_le.2 hout
+    simp only [hnle, ↓reduceIte]
+    have hpos : 0 < normSqr (zipSub p l) := lt_of_le_of_lt (by unfold sqr; exact mul_self_nonneg delta) hout
+    have hev : (fun t => huberRow Real.sqrt delta l (p.set j t))
+        =ᶠ[nhds p[j]] fun t => delta * Real.sqrt (normSqr (zipSub (p.set j t) l)) - (1 / 2 : ℝ) * sqr delta := by
+      have h0 : sqr delta < (fun t => normSqr (zipSub (p.set j t) l)) p[j] := by
+        show sqr delta < normSqr (zipSub (p.set j p[j]) l)
+        rw [hat]; exact hout
+      have := hcont.eventually (lt_mem_nhds h0)
+      filter_upwards [this] with t ht
+      unfold huberRow
+      simp only [not_le.2 ht, ↓reduceIte, half_real]
+    have hs := (hN.sqrt (by rw [hat]; exact ne_of_gt hpos))
+    rw [hat] at hs
+    have hd := (hs.const_mul delta).sub_const ((1 / 2 : ℝ) * sqr delta)
+    have hsq : Real.sqrt (normSqr (zipSub p l)) ≠ 0 := ne_of_gt (Real.sqrt_pos.2 hpos)
+    have e : delta * (2 * (p[j] - l[j]) / (2 * Real.sqrt (normSqr (zipSub p l))))
+        = delta / Real.sqrt (normSqr (zipSub p l)) * (p[j] - l[j]) := by
+      field_simp
+    rw [e] at hd
+    exact hd.congr_of_eventuallyEq hev
+
+/-- the entry returned by the model of `HuberLoss::evalDerivative` (remora computes `a·p − a·l`) -/
+theorem huber_gradient_entry (delta : ℝ) (l p : List ℝ) (j : ℕ) (hl : j < l.length) (hp : j < p.length) :
+    (huberGradRow Real.sqrt delta l p).getD j 0 =
+      (if normSqr (zipSub p l) ≤ sqr delta then p[j] - l[j]
+       else delta / Real.sqrt (normSqr (zipSub p l)) * (p[j] - l[j])) := by
+  simp only [huberGradRow]
+  split
+  · unfold zipSub
+    rw [List.getD_eq_getElem?_getD, List.getElem?_zipWith]
+    simp [List.getElem?_eq_getElem hl, List.getElem?_eq_getElem hp]
+  · rw [List.getD_eq_getElem?_getD, List.getElem?_zipWith]
+    simp [List.getElem?_eq_getElem hl, List.getElem?_eq_getElem hp]
+    ring
+
 /-- TwoNormRegularizer: `∂/∂x_j ½‖x‖² = x_j` -/
 theorem twoNorm_gradient_correct (x : List ℝ) (j : ℕ) (hj : j < x.length) :
     HasDerivAt (fun t => twoNorm (x.set j t)) x[j] x[j] := by
